@@ -53,6 +53,16 @@ theorem forStep_collect {α : Type} (body : α → PyVal → Step PyVal) (extra 
     rw [ih (fun y hy => h y (List.mem_cons_of_mem _ hy))]
     simp [List.flatMap_cons, List.append_assoc]
 
+/-- `for it in l: acc.append(f(it))` -/
+theorem forStep_append_map (f : PyVal → PyVal) (l : List PyVal) :
+    ∀ acc, forStep (fun it s => Step.next (PyLn.append s (f it))) l (.list acc) = .list (acc ++ l.map f) := by
+  induction l with
+  | nil => intro acc; simp [forStep]
+  | cons x l ih =>
+    intro acc
+    have h1 : PyLn.append (.list acc) (f x) = .list (acc ++ [f x]) := rfl
+    simp only [forStep, h1, ih, List.map, List.append_assoc, List.singleton_append]
+
 /-- appending the first hit, if any -/
 theorem append_find (o : Option α) (d : α → PyVal) (acc : List PyVal) :
     (match o with | some y => PyLn.append (.list acc) (d y) | none => .list acc) = .list (acc ++ (o.map d).toList) := by
@@ -60,36 +70,37 @@ theorem append_find (o : Option α) (d : α → PyVal) (acc : List PyVal) :
 
 /-! ### ranges and positions -/
 
-theorem rangeFrom_nat (a n : Nat) : rangeFrom (Int.ofNat a) n = (natsFrom a n).map fun k => PyVal.int (Int.ofNat k) := by
+theorem rangeFrom_nat (a n : Nat) : rangeFrom (a : Int) n = (natsFrom a n).map fun (k : Nat) => PyVal.int (k : Int) := by
   induction n generalizing a with
   | zero => rfl
   | succ n ih =>
     simp only [rangeFrom, natsFrom, List.map]
-    have : (Int.ofNat a + 1) = Int.ofNat (a + 1) := rfl
+    have : ((a : Int) + 1) = ((a + 1 : Nat) : Int) := by omega
     rw [this, ih]
 
-theorem range_nat (a b : Nat) : PyLn.range (.int (Int.ofNat a)) (.int (Int.ofNat b)) = (natsFrom a (b - a)).map fun k => PyVal.int (Int.ofNat k) := by
+theorem range_nat (a b : Nat) : PyLn.range (.int (a : Int)) (.int (b : Int)) = (natsFrom a (b - a)).map fun (k : Nat) => PyVal.int (k : Int) := by
   simp only [PyLn.range]
-  have : (Int.ofNat b - Int.ofNat a).toNat = b - a := by
-    simp only [Int.ofNat_eq_natCast]; omega
+  have : ((b : Int) - (a : Int)).toNat = b - a := by
+    omega
   rw [this, rangeFrom_nat]
 
-theorem index_nat (rs : List PyVal) (k : Nat) : PyLn.index (.list rs) (.int (Int.ofNat k)) = ruleAt rs k := by
+theorem index_nat (rs : List PyVal) (k : Nat) : PyLn.index (.list rs) (.int (k : Int)) = ruleAt rs k := by
   simp [PyLn.index, ruleAt]
 
-theorem lenV_list (rs : List PyVal) : PyLn.lenV (.list rs) = .int (Int.ofNat rs.length) := by
+theorem lenV_list (rs : List PyVal) : PyLn.lenV (.list rs) = .int (rs.length : Int) := by
   simp [PyLn.lenV, Py.len]
 
-theorem add_one (i : Nat) : PyLn.add (.int (Int.ofNat i)) (.int 1) = .int (Int.ofNat (i + 1)) := rfl
+theorem add_one (i : Nat) : PyLn.add (.int (i : Int)) (.int 1) = .int ((i + 1 : Nat) : Int) := by
+  simp [PyLn.add]
 
 theorem enumFrom_nat (a : Nat) (rs : List PyVal) :
-    PyLn.enumFrom a rs = (enumNat a rs).map fun ie => (PyVal.int (Int.ofNat ie.1), ie.2) := by
+    PyLn.enumFrom a rs = (enumNat a rs).map fun ie => (PyVal.int (ie.1 : Int), ie.2) := by
   induction rs generalizing a with
   | nil => rfl
   | cons r rs ih => simp [PyLn.enumFrom, enumNat, ih]
 
 theorem find_map_int (l : List Nat) (p : PyVal → Bool) :
-    (l.map fun k => PyVal.int (Int.ofNat k)).find? p = (l.find? fun k => p (.int (Int.ofNat k))).map fun k => PyVal.int (Int.ofNat k) := by
+    (l.map fun (k : Nat) => PyVal.int (k : Int)).find? p = (l.find? fun (k : Nat) => p (.int (k : Int))).map fun (k : Nat) => PyVal.int (k : Int) := by
   simp [List.find?_map, Function.comp_def]
 
 theorem mem_natsFrom {a n k : Nat} : k ∈ natsFrom a n ↔ a ≤ k ∧ k < a + n := by
@@ -148,5 +159,65 @@ theorem find_natsFrom_none {p : Nat → Bool} {a n : Nat} :
     (natsFrom a n).find? p = Option.none ↔ ∀ k, a ≤ k → k < a + n → p k = false := by
   simp only [List.find?_eq_none, mem_natsFrom, Bool.not_eq_true]
   exact ⟨fun h k h1 h2 => h k ⟨h1, h2⟩, fun h k hk => h k hk.1 hk.2⟩
+
+/-! ### the ranges the emitted loops run over -/
+
+theorem range_zero (j : Nat) : PyLn.range (.int 0) (.int (j : Int)) = (natsFrom 0 j).map fun (k : Nat) => PyVal.int (k : Int) := by
+  have := range_nat 0 j
+  simpa using this
+
+theorem range_one_len (rs : List PyVal) :
+    PyLn.range (.int 1) (PyLn.lenV (.list rs)) = (natsFrom 1 (rs.length - 1)).map fun (k : Nat) => PyVal.int (k : Int) := by
+  rw [lenV_list]
+  exact range_nat 1 rs.length
+
+theorem range_succ_len (i : Nat) (rs : List PyVal) :
+    PyLn.range (PyLn.add (.int (i : Int)) (.int 1)) (PyLn.lenV (.list rs))
+      = (natsFrom (i + 1) (rs.length - (i + 1))).map fun (k : Nat) => PyVal.int (k : Int) := by
+  rw [lenV_list, add_one]
+  exact range_nat (i + 1) rs.length
+
+/-! ### the two passes, on the shape the translator emits -/
+
+/-- the POTENTIALLY_UNREACHABLE pass -/
+theorem pass_unreachable (unr : PyVal → PyVal → PyVal) (rs acc : List PyVal) :
+    forStep (fun j s => Step.next (forStep (fun i s =>
+        if (unr (PyLn.index (.list rs) i) (PyLn.index (.list rs) j)).truthy = true then
+          Step.brk (PyLn.append s (PyVal.dict [("code", .str "POTENTIALLY_UNREACHABLE"), ("later_id", Py.get (PyLn.index (.list rs) j) "id"),
+            ("earlier_id", Py.get (PyLn.index (.list rs) i) "id"), ("later_index", j), ("earlier_index", i)]))
+        else Step.next s) (PyLn.range (.int 0) j) s)) (PyLn.range (.int 1) (PyLn.lenV (.list rs))) (.list acc)
+      = .list (acc ++ unreachableIssues unr rs) := by
+  rw [range_one_len, forStep_map]
+  apply forStep_collect
+  intro j _ acc
+  simp only [forStep_brk_if, range_zero, find_map_int, index_nat, unreachableAt, mkIssue, Py.get]
+  generalize (natsFrom 0 j).find? _ = r
+  cases r <;> simp [PyLn.append, index_nat]
+
+/-- the OVERLAPPED_BY_DENY pass -/
+theorem pass_deny (acts : PyVal → PyVal) (cov : PyVal → PyVal → PyVal) (rs acc : List PyVal) :
+    forStep (fun (ie : PyVal × PyVal) s =>
+        if (Py.ne (PyVal.por (Py.get ie.2 "effect") (.str "permit")) (.str "deny")).truthy = true then Step.next s
+        else Step.next (forStep (fun j s =>
+          if (cov ie.2 (PyLn.index (.list rs) j)).truthy = true then
+            if PyLn.shares (acts ie.2) (acts (PyLn.index (.list rs) j)) = true then
+              Step.brk (PyLn.append s (PyVal.dict [("code", .str "OVERLAPPED_BY_DENY"), ("later_id", Py.get (PyLn.index (.list rs) j) "id"),
+                ("earlier_id", Py.get ie.2 "id"), ("later_index", j), ("earlier_index", ie.1)]))
+            else Step.next s
+          else Step.next s) (PyLn.range (PyLn.add ie.1 (.int 1)) (PyLn.lenV (.list rs))) s))
+      (PyLn.enumerate (.list rs)) (.list acc)
+      = .list (acc ++ denyOverlapIssues acts cov rs) := by
+  simp only [PyLn.enumerate, Py.iter, enumFrom_nat, forStep_map]
+  refine forStep_collect _ (fun (ie : Nat × PyVal) => denyAt acts cov rs ie.1 ie.2) (enumNat 0 rs) ?_ acc
+  intro ie _ acc
+  have tb : ∀ b : Bool, (PyVal.bool b).truthy = b := fun b => rfl
+  simp only [denyAt, isDeny, effectOf, Py.ne, Py.get, tb]
+  by_cases h : PyVal.pyEq (PyVal.por (ie.2.get "effect") (.str "permit")) (.str "deny") = true
+  · have hs : Lint.shares = PyLn.shares := rfl
+    simp only [h, Bool.not_true, Bool.false_eq_true, if_false, if_true, forStep_brk_if2, range_succ_len, find_map_int, index_nat]
+    simp only [overlaps, hs, mkIssue]
+    generalize (natsFrom (ie.1 + 1) _).find? _ = r
+    cases r <;> simp [PyLn.append, index_nat]
+  · simp [h]
 
 end Rbacx.LintT
